@@ -228,10 +228,11 @@ Proof.
 Qed.
 
 (* conversely, nothing added: Close reports "empty" *)
-Lemma write_nil : forall deflate cfg mn mx, c_block_size cfg < 16777216 ->
+Lemma write_nil : forall deflate cfg mn mx, cfg_ok cfg ->
   exists d, write_table deflate cfg mn mx [] [] = Ok (true, d).
 Proof.
   intros deflate cfg mn mx H. unfold write_table, w_new.
+  rewrite (cfg_ok_not_small cfg H). destruct H as [H _].
   destruct (N.leb_spec 16777216 (c_block_size cfg)) as [L|L]; [lia|]. clear H L.
   cbn [bind add_refs add_logs].
   match goal with |- exists d, ?X = _ =>
@@ -829,7 +830,7 @@ Section StackSeqProofs.
       assert (TE : table_empty c = false).
       { destruct (table_empty c) eqn:TE; [|reflexivity]. exfalso.
         rewrite (table_empty_refs _ TE), (table_empty_logs _ TE) in W.
-        destruct (write_nil deflate cfg (t_min c) (t_max c) (proj1 Hc)) as (d & X). congruence. }
+        destruct (write_nil deflate cfg (t_min c) (t_max c) Hc) as (d & X). congruence. }
       rewrite TE. rewrite tables_splice. cbn [tables map fst].
       assert (Etc : t = c).
       { apply table_ext; [exact T1|exact T2|rewrite T3; symmetry; exact A3|exact T4|exact T5]. }
